@@ -79,7 +79,10 @@ def run(ctx):
         rule="plans = TLC simulation of Session.tla (4 sessions, weighted actions, hold marks racing pairs) "
              "+ seeded random schedules (1..3 sessions, payloads 1..80 bytes, partial writes) on scripted "
              "connections; loopback worlds: max 1..3 connections, up to 6 dials (single and bursts), ends by "
-             "Close / client close / poison frames / 30 ms read deadline; a trace is one SessionMgr lifetime",
+             "Close / client close / poison frames / 30 ms read deadline; every fifth world fills the "
+             "server and fires bursts of 8..12 and 3..6 simultaneous surplus dials (each must be closed; a "
+             "connection neither admitted nor closed after 10 s with the process quiescent is recorded as "
+             "start r=hung, which no spec step explains); a trace is one SessionMgr lifetime",
         explanation="after every step: ConnCount, OnExit calls, connection closed, Write / Read in flight, "
                     "bytes at the peer and goroutines left per session must be the quiescent successor "
                     "state of Session.tla; on sockets: admitted/refused per dial, bytes read up to a clean "
